@@ -263,7 +263,7 @@ def mk_overlap(kind):
         calls = []
         for i in range(3):
             inst, a, b, sp = p[4 * i:4 * i + 4]
-            calls.append((conc(inst, 2) if kind != 1 else 0, conc(a, 2), conc(b, 2), conc(sp, 6)))
+            calls.append((conc(inst, 2), conc(a, 2), conc(b, 2), conc(sp, 6)))
         rec.clear_fail()
         prog.reset_globals()
         _B.cur[0] = None
@@ -278,11 +278,19 @@ def mk_overlap(kind):
             return (n, t, a, b, c)
 
         if kind == 1:
-            @alru_cache(maxsize=2)
+            # one configured decorator object applied to two functions: each function has a cache of its own
+            memo = alru_cache(maxsize=2)
+
+            @memo
             @A()
             def fn(a, b=1, *, c=2):
                 return (yield from body(0, a, b, c))
-            targets = [fn, fn]
+
+            @memo
+            @A()
+            def gn(a, b=1, *, c=2):
+                return (yield from body(1, a, b, c))
+            targets = [fn, gn]
         else:
             deco = acached_per_instance() if kind == 0 else alru_cache(maxsize=4)
 
@@ -302,7 +310,8 @@ def mk_overlap(kind):
                     return (yield from body(self.t, a, b, c))
             ks = [K(0), K(1)]
             targets = [ks[0].m, ks[1].m]
-        name = ["acached_per_instance", "alru_cache function", "alru_cache method"][kind]
+        name = ["acached_per_instance", "alru_cache: two functions decorated with one alru_cache(maxsize=2) object",
+                "alru_cache method"][kind]
         got = {}
 
         @A()
@@ -350,7 +359,7 @@ def mk_overlap(kind):
 
 def overlap_params(kind, q):
     ps = [I("delay", 0, 1 if q else 2)]
-    im = 0 if kind == 1 else 1
+    im = 1
     spm = [1, 2, 3] if q else [2, 3, 5]
     for i in range(3):
         ps += [I("inst%d" % i, 0, im), I("a%d" % i, 0, 1), I("b%d" % i, 1 if (i == 1 and q) else 0, 1), I("sp%d" % i, 0, spm[i])]
